@@ -26,20 +26,68 @@ def closure_env_map(parent, child_path):
     return None
 
 
+def _strip(sym):
+    while sym[0] in ("ref", "deref", "cast"):
+        sym = sym[1]
+    return sym
+
+
 def resolves_to_param(sym, env, param_name):
-    """Does `sym` (in a closure body) denote the captured parent parameter `param_name`?"""
-    for sub in sym_walk(sym):
-        if sub[0] == "field" and isinstance(sub[2], (int, str)) and str(sub[2]).isdigit():
-            base = sub[1]
-            while base[0] in ("deref", "ref"):
-                base = base[1]
-            if base[0] == "param" and base[1] == 1 and env and int(sub[2]) < len(env):
-                cap = env[int(sub[2])]
-                while cap[0] in ("ref", "deref"):
-                    cap = cap[1]
-                if cap[0] == "param" and cap[2] == param_name:
-                    return True
+    """Is `sym` the parameter `param_name` itself, up to borrows and integer casts — directly (env is None: an expression of
+    the function itself) or, in a closure body, a captured upvar whose parent value is that parameter (up to borrows/casts)?
+    Arithmetic on the index (index + 1, ...) does not qualify."""
+    sym = _strip(sym)
+    if env is None:
+        return sym[0] == "param" and sym[2] == param_name
+    if sym[0] == "field" and isinstance(sym[2], (int, str)) and str(sym[2]).isdigit():
+        base = _strip(sym[1])
+        if base[0] == "param" and base[1] == 1 and int(sym[2]) < len(env):
+            cap = _strip(env[int(sym[2])])
+            return cap[0] == "param" and cap[2] == param_name
     return False
+
+
+def index_uses(P, fn):
+    """(membership test uses index, key comparison uses index, {closure path: True if it is a membership closure})
+    searched in the function itself and in its closures (any spelling: contains / == / eq, direct or captured)."""
+    found_contains = found_eq = False
+    member_closures = set()
+    bodies = [(fn, None)]
+    for k in P.closure_children(fn):
+        env = closure_env_map(fn, k.path) or closure_env_map(P.get(k.b.get("parent")) or fn, k.path)
+        bodies.append((k, env if env is not None else []))
+    for g, env in bodies:
+        for bi, t in g.calls():
+            name = flow.callee_name(t)
+            if name.endswith("::contains") and len(t["args"]) > 1:
+                if resolves_to_param(g.sym_operand(t["args"][1]), env, "index"):
+                    found_contains = True
+                    if g is not fn:
+                        member_closures.add(g.path)
+            if re.search(r"PartialEq::eq$|::eq$", name) and len(t["args"]) > 1:
+                if any(resolves_to_param(g.sym_operand(a), env, "index") for a in t["args"]):
+                    found_eq = True
+        for bi, si, st in g.statements():
+            if st[0] == "a" and st[2]["k"] == "bin" and st[2]["op"] == "Eq":
+                if any(resolves_to_param(g.sym_operand(o), env, "index") for o in (st[2]["l"], st[2]["r"])):
+                    found_eq = True
+    return found_contains, found_eq, member_closures
+
+
+def is_membership(sym, member_closures):
+    """`sym` is the invalid-transactions membership test of the requested index: a contains(.., index) call, or an Option
+    combinator fed by invalid_transactions whose closure performs that test (with `false` as the value for an absent list)."""
+    direct = any(sub[0] == "call" and sub[1].endswith("::contains") and len(sub[2]) > 1 and resolves_to_param(sub[2][1], None, "index")
+                 for sub in sym_walk(sym))
+    via = any(sub[0] == "agg" and sub[1] == "closure" and sub[2] in member_closures for sub in sym_walk(sym))
+    if not (direct or via):
+        return False, "no membership test of the requested index"
+    for sub in sym_walk(sym):
+        if sub[0] == "call" and re.search(r"Option::(unwrap_or|map_or)$", flow.strip_generics(sub[1])):
+            dflt = sub[2][1] if len(sub[2]) > 1 else None
+            if dflt is not None and dflt[0] == "const" and int(dflt[1]) != 0:
+                return False, "an absent invalid_transactions list counts as `invalid`"
+    return True, "membership"
 
 
 def run(tier):
@@ -149,43 +197,52 @@ def run(tier):
         for field in ("transaction_bodies", "transaction_witness_sets"):
             key = "index:%s:%s" % (nm, field)
             idx = gets.get(field)
-            if idx is not None and idx[0] == "param" and idx[2] == "index":
+            if idx is not None and resolves_to_param(idx, None, "index"):
                 res.ok(key, "R-PROV", "%s.get(index)" % field)
             else:
                 res.violation(key, "%s: %s is not looked up with the requested index (%s)" % (nm, field, sym_str(idx) if idx else "no get() call"), where="%s:%s" % (fn.file, fn.line), rule="R-PROV")
-        kids = P.closure_children(fn)
-        found_contains = found_eq = False
-        for k in kids:
-            env = closure_env_map(fn, k.path) or closure_env_map(P.get(k.b.get("parent")) or fn, k.path)
-            for bi, t in k.calls():
-                name = flow.callee_name(t)
-                if name.endswith("::contains") and len(t["args"]) > 1:
-                    found_contains = resolves_to_param(k.sym_operand(t["args"][1]), env, "index") or found_contains
-                if re.search(r"PartialEq::eq$|::eq$", name) and len(t["args"]) > 1:
-                    if any(resolves_to_param(k.sym_operand(a), env, "index") for a in t["args"]):
-                        found_eq = True
+        found_contains, found_eq, member_closures = index_uses(P, fn)
         for ok, what in ((found_contains, "invalid_transactions membership"), (found_eq, "auxiliary_data_set key comparison")):
             key = "index:%s:%s" % (nm, what.split()[0])
             if ok:
                 res.ok(key, "R-PROV", "%s uses the requested index" % what)
             else:
                 res.violation(key, "%s: the %s does not use the requested index" % (nm, what), where="%s:%s" % (fn.file, fn.line), rule="R-PROV")
-        # success = !contains
+        # success = !(index in invalid_transactions), decided per return path of the tabulated function so that the combinator
+        # spelling (`!opt.map(|x| x.contains(..)).unwrap_or(false)`) and the match / if spellings are all accepted
         key = "success-negation:%s" % nm
-        okneg = False
-        for bi, si, rv in flow.aggregates(fn, r"::model::Tx$"):
-            adt = rv["adt"]
-            i = flow.adt_field_index(P, adt, "success")
+        verdicts = []
+        for p in tabulate(fn, P, 512):
+            if p.end != "return" or p.ret is None or p.ret[0] != "agg" or p.ret[2] != "Some":
+                continue
+            tx = p.ret[3][0] if p.ret[3] else None
+            if tx is None or tx[0] != "agg" or not str(tx[1]).endswith("::Tx"):
+                continue
+            i = flow.adt_field_index(P, tx[1], "success")
             if i is None:
-                # Tx type lives in pallas_primitives: field order body, witness_set, success, aux
-                i = 2
-            s_ = fn.sym_operand(rv["fields"][i])
-            if s_[0] == "un" and s_[1] == "Not" and any(sub[0] == "call" and sub[1].endswith("unwrap_or") for sub in sym_walk(s_)):
-                okneg = True
-        if okneg:
-            res.ok(key, "R-PROV", "Tx.success = !(invalid_transactions contains index)")
+                i = 2        # Tx lives in pallas_primitives: body, witness_set, success, auxiliary_data
+            s_ = tx[3][i]
+            if s_[0] == "un" and s_[1] == "Not":
+                ok_, why = is_membership(s_[2], member_closures)
+                verdicts.append((ok_, why if not ok_ else "success = !membership"))
+            elif s_[0] == "const":
+                val = int(s_[1])
+                ok_, why = False, "success is the constant %s on a path that does not decide the membership" % bool(val)
+                for d, c in p.conds:
+                    truth = (c[0] == "eq" and int(c[1]) != 0) or (c[0] == "ne" and 0 in [int(x) for x in c[1]])
+                    if d[0] == "discr" and "invalid_transactions" in sym_str(d, 2000) and c[0] == "eq" and int(c[1]) == 0 and val == 1:
+                        ok_, why = True, "no invalid_transactions list: success = true"
+                    m_, _ = is_membership(d, member_closures) if d[0] in ("call", "un") else (False, "")
+                    if m_ and d[0] == "call" and val == (0 if truth else 1):
+                        ok_, why = True, "success = %s under membership == %s" % (bool(val), truth)
+                verdicts.append((ok_, why))
+            else:
+                verdicts.append((False, "success = %s" % sym_str(s_, 120)))
+        if verdicts and all(v[0] for v in verdicts):
+            res.ok(key, "R-PROV", "Tx.success = !(invalid_transactions contains index) on %d constructing path(s)" % len(verdicts))
         else:
-            res.violation(key, "%s: `success` is not the negation of the invalid-transactions membership test" % nm, where="%s:%s" % (fn.file, fn.line), rule="R-PROV")
+            res.violation(key, "%s: `success` is not the negation of the invalid-transactions membership test (%s)" % (
+                nm, "; ".join(v[1] for v in verdicts if not v[0]) or "no path constructs the transaction"), where="%s:%s" % (fn.file, fn.line), rule="R-PROV")
     res.floor("clone_tx_at functions", n_fn, 3)
 
     # (c) tx_count / is_empty per variant
